@@ -66,3 +66,17 @@ Fixpoint wfv (lo hi : Z) (vs : list variant) : Prop :=
       wfv (v_pos v + Z.max 1 (zlen (v_ref v))) hi vs'
   end.
 Definition sum_delta_v (vs : list variant) : Z := fold_right (fun v a => zlen (v_alt v) - zlen (v_ref v) + a) 0 vs.
+
+(* nearest surviving REF base on one side, inside the context [lo, hi] *)
+Definition nearest_before (vs : list vstat) (lo p p' : Z) : Prop :=
+  lo <= p' < p /\ deleted vs p' = false /\ forall x, p' < x < p -> deleted vs x = true.
+Definition nearest_after (vs : list vstat) (hi p p' : Z) : Prop :=
+  p < p' <= hi /\ deleted vs p' = false /\ forall x, p < x < p' -> deleted vs x = true.
+Definition none_before (vs : list vstat) (lo p : Z) : Prop := forall x, lo <= x < p -> deleted vs x = true.
+Definition none_after (vs : list vstat) (hi p : Z) : Prop := forall x, p < x <= hi -> deleted vs x = true.
+
+(* ranges: a and b are the first and the last surviving base of x *)
+Definition surviving_span (vs : list vstat) (x : range) (a b : Z) : Prop :=
+  rs x <= a <= b /\ b <= re x /\ deleted vs a = false /\ deleted vs b = false /\
+  (forall y, rs x <= y < a -> deleted vs y = true) /\ (forall y, b < y <= re x -> deleted vs y = true).
+Definition all_deleted (vs : list vstat) (x : range) : Prop := forall y, rs x <= y <= re x -> deleted vs y = true.
